@@ -319,7 +319,14 @@ func TestVerifE2E_C11(t *testing.T) {
 	rec := vlib.Open("C11")
 	defer rec.Close()
 	total := vlib.Scale(384, 7680)
-	vlib.Cases(total, func(idx int) {
+	// the last fifth of the case list: several sessions per neighbour with changing capabilities (e2e_c11_resession_test.go)
+	multi := vlib.Scale(96, 1920)
+	vlib.Cases(total+multi, func(idx int) {
+		if idx >= total {
+			rec.Mark(fmt.Sprintf("e2e c11 re-session scenario %d", idx), true)
+			synctest.Test(t, func(t *testing.T) { e2eC11Resession(t, rec, idx, idx-total) })
+			return
+		}
 		rec.Mark(fmt.Sprintf("e2e c11 scenario %d", idx), true)
 		synctest.Test(t, func(t *testing.T) { e2eC11Scenario(t, rec, idx) })
 	})
